@@ -64,6 +64,70 @@ pub fn image(len: usize, fill: &str, seed: u64) -> Vec<u8> {
                 let n = chunk.len();
                 chunk.copy_from_slice(&x[..n]);
             }
+            // content patterns on top of the random bytes: what "erased flash", "blank",
+            // "compressible" or "looks like a line end" logic would key on
+            let mut r = Rng::new(seed ^ 0xF111);
+            match fill {
+                // a head / a tail of erased (0xFF) or zero cells, of a whole number of records or not
+                "ff-head" | "zero-head" => {
+                    let b = if fill == "ff-head" { 0xFF } else { 0x00 };
+                    let n = (16 * r.range(1, 6) as usize + [0usize, 0, 1, 15][r.usize(4)]).min(len);
+                    v[..n].iter_mut().for_each(|x| *x = b);
+                    if n < len && v[n] == b {
+                        v[n] = 0x42;
+                    }
+                }
+                "ff-tail" | "zero-tail" => {
+                    let b = if fill == "ff-tail" { 0xFF } else { 0x00 };
+                    let n = (16 * r.range(1, 6) as usize + [0usize, 0, 1, 15][r.usize(4)]).min(len);
+                    v[len - n..].iter_mut().for_each(|x| *x = b);
+                    if n < len && v[len - n - 1] == b {
+                        v[len - n - 1] = 0x42;
+                    }
+                }
+                // whole records of 0xFF / 0x00 in the middle, also right at 64 KiB boundaries
+                "holes" => {
+                    let lines = len / 16;
+                    if lines > 0 {
+                        for _ in 0..(1 + lines / 8).min(64) {
+                            let l = r.usize(lines);
+                            let b = if r.chance(1, 2) { 0xFF } else { 0x00 };
+                            let span = r.range(1, 3) as usize;
+                            for x in v[l * 16..((l + span) * 16).min(len)].iter_mut() {
+                                *x = b;
+                            }
+                        }
+                        for k in 1..=(len / 65536) {
+                            if r.chance(1, 2) {
+                                let at = k * 65536;
+                                for x in v[at.saturating_sub(16)..(at + 16).min(len)].iter_mut() {
+                                    *x = 0xFF;
+                                }
+                            }
+                        }
+                    }
+                }
+                // bytes that are line ends, the record mark, EOF marks, in text terms
+                "lineends" => {
+                    let alphabet = [0x0Au8, 0x0D, 0x3A, 0x1A, 0x00, 0xFF, 0x0A, 0x0D];
+                    for x in v.iter_mut() {
+                        *x = alphabet[r.usize(alphabet.len())];
+                    }
+                }
+                // long runs of equal bytes
+                "runs" => {
+                    let mut i = 0;
+                    while i < len {
+                        let n = r.range(1, 70) as usize;
+                        let b = r.next_u64() as u8;
+                        for x in v[i..(i + n).min(len)].iter_mut() {
+                            *x = b;
+                        }
+                        i += n;
+                    }
+                }
+                _ => {}
+            }
         }
     }
     v
@@ -158,14 +222,14 @@ pub fn scenario_shape(tier: &str, base_seed: u64, g: u64) -> Scenario {
     let sweep = sweep_lengths(tier);
     let seed = mix(base_seed, &[0xC07, g]);
     let mut r = Rng::new(seed);
-    let fills = ["random", "addr", "random", "zero", "ff", "addr"];
+    let fills = ["random", "addr", "random", "zero", "ff", "addr", "ff-head", "ff-tail", "zero-head", "zero-tail", "holes", "lineends", "runs", "ff-head", "holes"];
     if (g as usize) < sweep.len() {
         let (len, w) = sweep[g as usize];
         return Scenario {
             engine: "hexio".into(),
             writer: w.into(),
             len,
-            fill: if len >= 65536 { "addr".into() } else { fills[r.usize(2)].into() },
+            fill: if len >= 65536 { ["addr", "addr", "holes", "ff-head", "ff-tail", "zero-head"][r.usize(6)].into() } else { fills[r.usize(fills.len())].into() },
             fill_seed: seed,
             pre_existing: if r.chance(1, 4) { len * 4 + 100 } else { 0 },
             pre_kind: String::new(),
